@@ -36,6 +36,29 @@ def model_check(v, prop, tier):
     elif prop == "C14":
         plans = [("MC_Seq AppendOnly/IdsOnlyGrow/SizeBound with crashes, ops<=3", ["TypeOK", "SizeBound"], 3 if q else 4, "MCConfigs", 1, ("AppendOnly",))]
     else:
+        # C20: the fault model (one transient failure at any system-call step, the code's error paths)
+        cfgtext = f"""SPECIFICATION FSpec
+CONSTANTS
+  Keys = {storage.K2}
+  Vals = {storage.V2}
+  KLen <- MCKLen
+  VLen <- MCVLen
+  Configs <- MCConfigsFault
+  MaxOps = 4
+  MaxCrashes = 0
+  Ops = {storage.ALL_OPS}
+  Deviations = {{}}
+  MaxFaults = 1
+  FDev = {{}}
+CONSTRAINT OpsBound
+INVARIANTS FaultContainedLive FaultContainedRestart StaysUsable
+CHECK_DEADLOCK FALSE
+"""
+        cfg = write_cfg(f"mc_fault_{os.getpid()}.cfg", cfgtext)
+        r = tlc("MC_Fault.tla", cfg, workers=NCPU, timeout=3000, xmx="16g", metatag=f"mc-fault-{os.getpid()}")
+        v.add_tlc("BitcaskFault.tla: one failure at every system-call step, ops<=4, 18 configs (3 max file sizes x sync none/always x 3 thresholds)", r)
+        if not r.ok:
+            raise ToolError(f"specification check failed for C20: {r.violated or r.eval_error}\n{r.out[-3000:]}")
         plans = []
     for label, invs, maxops, configs, crashes, props in plans:
         cfg = storage.mc_cfg(f"mc_{prop}_{maxops}.cfg", invs, maxops, configs, crashes=crashes, props=props)
@@ -45,15 +68,15 @@ def model_check(v, prop, tier):
             raise ToolError(f"specification check failed for {prop}: {r.violated or r.eval_error}\n{r.out[-3000:]}")
 
 
-def gen_behaviours(v, tier, tag, sync):
+def gen_behaviours(v, tier, tag, sync, configs=None, maxops=None):
     """TLC-generated client behaviours on the four configurations that exercise rollover and merge."""
-    configs = "MCConfigsSync" if sync == "always" else "MCConfigsFs"
-    maxops = 3 if tier == "quick" else 4
+    configs = configs or ("MCConfigsSync" if sync == "always" else "MCConfigsFs")
+    maxops = maxops or (3 if tier == "quick" else 4)
     cfg = write_cfg(f"gen_{tag}.cfg", storage.MC_TMPL.format(
         spec="GSpec", keys=storage.K2, vals=storage.V2, configs=configs, maxops=maxops, crashes=0,
         ops=storage.ALL_OPS, invs="INVARIANT Emit"))
     r = tlc("Gen_Seq.tla", cfg, workers=NCPU, timeout=3000, xmx="16g", metatag=f"gen-{tag}")
-    v.add_tlc(f"Gen_Seq ops={maxops}, 4 configs sync={sync}", r)
+    v.add_tlc(f"Gen_Seq ops={maxops}, {configs} sync={sync}", r)
     if not r.ok:
         raise ToolError(f"generator failed: {r.out[-2000:]}")
     seen = {}
@@ -115,12 +138,18 @@ def drive(v, prop, tier, tag):
     sets = []
     gfile, ng = gen_behaviours(v, tier, tag, sync)
     sets.append(("generated", gfile, ng, 10**6))
+    if mode != "fault" or not q:
+        # one operation deeper on the two configurations where an older, mostly-live file sits below an
+        # eligible one (two entries per file + fragmentation threshold; one entry per file + dead bytes)
+        dfile, nd = gen_behaviours(v, tier, tag + "-deep", sync, configs="MCConfigsDeepSync" if sync == "always" else "MCConfigsDeep",
+                                   maxops=4 if q else 5)
+        sets.append(("generated-deep", dfile, nd, 10**6))
     if mode == "fault":
         sets.append(("random-wide", *random_behaviours(tag, sync, 10 if q else 60, 12, "wide"), 40))
         sets.append(("random-size", *random_behaviours(tag, sync, 6 if q else 40, 8, "size"), 40))
     else:
-        sets.append(("random-wide", *random_behaviours(tag, sync, 40 if q else 400, 25, "wide"), 60 if q else 200))
-        sets.append(("random-size", *random_behaviours(tag, sync, 12 if q else 100, 12, "size"), 60 if q else 200))
+        sets.append(("random-wide", *random_behaviours(tag, sync, 40 if q else 400, 25, "wide"), 400))
+        sets.append(("random-size", *random_behaviours(tag, sync, 12 if q else 100, 12, "size"), 400))
     files, summary, aborts = [], {}, []
     for label, bfile, n, maxpts in sets:
         pre = os.path.join(work, label)
@@ -245,6 +274,49 @@ def validate(v, prop, files, tag):
     v.cov["trace_events_validated"] = v.cov.get("trace_events_validated", 0) + nev
 
 
+MECH_CFG = """SPECIFICATION TSpec
+CONSTANTS
+  Keys <- TrKeys
+  Vals <- TrVals
+  KLen <- TrKLen
+  VLen <- TrVLen
+  Configs = {}
+  MaxOps = 0
+  MaxCrashes = 0
+  Ops = {}
+  Deviations = {}
+POSTCONDITION Accepted
+CHECK_DEADLOCK FALSE
+"""
+
+
+def mechanism(v, prop, files, tag):
+    """Mechanism level: every recorded call sequence must be a behaviour of Bitcask.tla step by step
+    (TraceMech.tla).  A rejection is model drift: recorded in the evidence, never an alarm."""
+    cfg = write_cfg(f"tracemech_{prop}_{tag}.cfg", MECH_CFG)
+
+    def one(f):
+        return f, tlc("TraceMech.tla", cfg, workers=1, env={"TRACE": f, "JAVA_TOOL_OPTIONS": JAVA_OPTS_TRACE},
+                      timeout=3000, xmx="3g", metatag=f"trm-{prop}-{os.path.basename(f)}-{os.getpid()}")
+
+    ok, drift = 0, []
+    for f, r in parallel(one, files, n=NCPU):
+        v.cov["transitions"] += r.generated
+        v.cov["states"] += r.distinct
+        if r.ok:
+            ok += 1
+            continue
+        m = re.search(r"MECHANISM DRIFT[^\n]*\n?[^\n]*", r.out)
+        if not m and not r.postcondition_failed:
+            raise ToolError(f"mechanism validation of {f} failed in the tooling: {r.out[-2500:]}")
+        drift.append({"file": os.path.basename(f), "first_unexplained": (m.group(0)[:500] if m else "?")})
+    v.cov["mechanism_traces_accepted"] = ok
+    if drift:
+        v.cov["model_drift"] = True
+        v.cov["mechanism_drift"] = drift[:5]
+        log(f"model drift: {len(drift)} trace files are not behaviours of Bitcask.tla step by step (not an alarm): {drift[0]}")
+
+
 def check(prop, tier):
     v = Verdict(prop, tier)
     tag = f"{prop}-{os.getpid()}"
@@ -253,7 +325,11 @@ def check(prop, tier):
         build_harness()
         model_check(v, prop, tier)
         files, summary, gfile = drive(v, prop, tier, tag)
+        # the files are rewritten by validate() only when a known finding is dropped from them
+        mech_files = list(files) if PROPS[prop]["mode"] in ("crash", "power") else []
         validate(v, prop, files, tag)
+        if mech_files and not v.violations:
+            mechanism(v, prop, mech_files, tag)
         if prop == "C14":
             # content level: no file ever changes except by growing at its end / disappearing
             sfiles, ssum = storage.drive(v, tier, tag + "-s", storage.generate(v, tier, tag + "-s")[0])
